@@ -298,7 +298,7 @@ func (a *AliasedExpression) SQL() string {
 	if a == nil {
 		return ""
 	}
-	return exprSQL(a.Expr) + " AS " + a.Alias
+	return exprSQL(a.Expr) + " AS " + safeIdentifier(a.Alias)
 }
 
 func (c *CastExpression) SQL() string {
@@ -618,7 +618,7 @@ func (s *SelectStatement) SQL() string {
 		sb.WriteString(" WINDOW ")
 		wins := make([]string, len(s.Windows))
 		for i := range s.Windows {
-			wins[i] = s.Windows[i].Name + " AS (" + windowSpecSQL(&s.Windows[i]) + ")"
+			wins[i] = safeIdentifier(s.Windows[i].Name) + " AS (" + windowSpecSQL(&s.Windows[i]) + ")"
 		}
 		sb.WriteString(strings.Join(wins, ", "))
 	}
@@ -660,7 +660,7 @@ func (i *InsertStatement) SQL() string {
 	}
 
 	sb.WriteString("INSERT INTO ")
-	sb.WriteString(i.TableName)
+	sb.WriteString(nameSQL(i.TableName))
 
 	if len(i.Columns) > 0 {
 		sb.WriteString(" (")
@@ -709,10 +709,10 @@ func (u *UpdateStatement) SQL() string {
 	}
 
 	sb.WriteString("UPDATE ")
-	sb.WriteString(u.TableName)
+	sb.WriteString(nameSQL(u.TableName))
 	if u.Alias != "" {
 		sb.WriteString(" ")
-		sb.WriteString(u.Alias)
+		sb.WriteString(safeIdentifier(u.Alias))
 	}
 
 	sb.WriteString(" SET ")
@@ -758,10 +758,10 @@ func (d *DeleteStatement) SQL() string {
 	}
 
 	sb.WriteString("DELETE FROM ")
-	sb.WriteString(d.TableName)
+	sb.WriteString(nameSQL(d.TableName))
 	if d.Alias != "" {
 		sb.WriteString(" ")
-		sb.WriteString(d.Alias)
+		sb.WriteString(safeIdentifier(d.Alias))
 	}
 
 	if len(d.Using) > 0 {
@@ -800,7 +800,7 @@ func (c *CreateTableStatement) SQL() string {
 	if c.IfNotExists {
 		sb.WriteString("IF NOT EXISTS ")
 	}
-	sb.WriteString(c.Name)
+	sb.WriteString(nameSQL(c.Name))
 	sb.WriteString(" (")
 
 	parts := make([]string, 0, len(c.Columns)+len(c.Constraints))
@@ -817,12 +817,12 @@ func (c *CreateTableStatement) SQL() string {
 
 	if len(c.Inherits) > 0 {
 		sb.WriteString(" INHERITS (")
-		sb.WriteString(strings.Join(c.Inherits, ", "))
+		sb.WriteString(nameListSQL(c.Inherits))
 		sb.WriteString(")")
 	}
 
 	if c.PartitionBy != nil {
-		fmt.Fprintf(sb, " PARTITION BY %s (%s)", c.PartitionBy.Type, strings.Join(c.PartitionBy.Columns, ", "))
+		fmt.Fprintf(sb, " PARTITION BY %s (%s)", c.PartitionBy.Type, nameListSQL(c.PartitionBy.Columns))
 	}
 
 	for _, opt := range c.Options {
@@ -846,9 +846,9 @@ func (c *CreateIndexStatement) SQL() string {
 	if c.IfNotExists {
 		sb.WriteString("IF NOT EXISTS ")
 	}
-	sb.WriteString(c.Name)
+	sb.WriteString(nameSQL(c.Name))
 	sb.WriteString(" ON ")
-	sb.WriteString(c.Table)
+	sb.WriteString(nameSQL(c.Table))
 
 	if c.Using != "" {
 		sb.WriteString(" USING ")
@@ -858,7 +858,7 @@ func (c *CreateIndexStatement) SQL() string {
 	sb.WriteString(" (")
 	cols := make([]string, len(c.Columns))
 	for i, col := range c.Columns {
-		s := col.Column
+		s := nameSQL(col.Column)
 		if col.Direction != "" {
 			s += " " + col.Direction
 		}
@@ -882,7 +882,7 @@ func (a *AlterTableStatement) SQL() string {
 	sb := getBuilder()
 	defer putBuilder(sb)
 	sb.WriteString("ALTER TABLE ")
-	sb.WriteString(a.Table)
+	sb.WriteString(nameSQL(a.Table))
 	for _, action := range a.Actions {
 		action := action // G601: Create local copy to avoid memory aliasing
 		sb.WriteString(" ")
@@ -903,7 +903,7 @@ func (d *DropStatement) SQL() string {
 	if d.IfExists {
 		sb.WriteString("IF EXISTS ")
 	}
-	sb.WriteString(strings.Join(d.Names, ", "))
+	sb.WriteString(nameListSQL(d.Names))
 	if d.CascadeType != "" {
 		sb.WriteString(" ")
 		sb.WriteString(d.CascadeType)
@@ -918,7 +918,7 @@ func (t *TruncateStatement) SQL() string {
 	sb := getBuilder()
 	defer putBuilder(sb)
 	sb.WriteString("TRUNCATE TABLE ")
-	sb.WriteString(strings.Join(t.Tables, ", "))
+	sb.WriteString(nameListSQL(t.Tables))
 	if t.RestartIdentity {
 		sb.WriteString(" RESTART IDENTITY")
 	} else if t.ContinueIdentity {
@@ -994,10 +994,10 @@ func (c *CreateViewStatement) SQL() string {
 	if c.IfNotExists {
 		sb.WriteString("IF NOT EXISTS ")
 	}
-	sb.WriteString(c.Name)
+	sb.WriteString(nameSQL(c.Name))
 	if len(c.Columns) > 0 {
 		sb.WriteString(" (")
-		sb.WriteString(strings.Join(c.Columns, ", "))
+		sb.WriteString(nameListSQL(c.Columns))
 		sb.WriteString(")")
 	}
 	sb.WriteString(" AS ")
@@ -1019,10 +1019,10 @@ func (c *CreateMaterializedViewStatement) SQL() string {
 	if c.IfNotExists {
 		sb.WriteString("IF NOT EXISTS ")
 	}
-	sb.WriteString(c.Name)
+	sb.WriteString(nameSQL(c.Name))
 	if len(c.Columns) > 0 {
 		sb.WriteString(" (")
-		sb.WriteString(strings.Join(c.Columns, ", "))
+		sb.WriteString(nameListSQL(c.Columns))
 		sb.WriteString(")")
 	}
 	sb.WriteString(" AS ")
@@ -1047,7 +1047,7 @@ func (r *RefreshMaterializedViewStatement) SQL() string {
 	if r.Concurrently {
 		sb.WriteString("CONCURRENTLY ")
 	}
-	sb.WriteString(r.Name)
+	sb.WriteString(nameSQL(r.Name))
 	if r.WithData != nil {
 		if *r.WithData {
 			sb.WriteString(" WITH DATA")
@@ -1068,13 +1068,13 @@ func (m *MergeStatement) SQL() string {
 	sb.WriteString(tableRefSQL(&m.TargetTable))
 	if m.TargetAlias != "" {
 		sb.WriteString(" ")
-		sb.WriteString(m.TargetAlias)
+		sb.WriteString(safeIdentifier(m.TargetAlias))
 	}
 	sb.WriteString(" USING ")
 	sb.WriteString(tableRefSQL(&m.SourceTable))
 	if m.SourceAlias != "" {
 		sb.WriteString(" ")
-		sb.WriteString(m.SourceAlias)
+		sb.WriteString(safeIdentifier(m.SourceAlias))
 	}
 	sb.WriteString(" ON ")
 	sb.WriteString(exprSQL(m.OnCondition))
@@ -1339,6 +1339,31 @@ func stmtSQL(s Statement) string {
 	return s.TokenLiteral()
 }
 
+// nameSQL renders a table or object name, which may be schema-qualified (schema.table): every
+// dot-separated part that needs it is double-quoted.
+func nameSQL(name string) string {
+	if name == "" {
+		return ""
+	}
+	if !strings.Contains(name, ".") {
+		return safeIdentifier(name)
+	}
+	parts := strings.Split(name, ".")
+	for i := range parts {
+		parts[i] = safeIdentifier(parts[i])
+	}
+	return strings.Join(parts, ".")
+}
+
+// nameListSQL renders a comma-separated list of names.
+func nameListSQL(names []string) string {
+	parts := make([]string, len(names))
+	for i, n := range names {
+		parts[i] = nameSQL(n)
+	}
+	return strings.Join(parts, ", ")
+}
+
 func exprListSQL(exprs []Expression) string {
 	parts := make([]string, len(exprs))
 	for i, e := range exprs {
@@ -1377,11 +1402,11 @@ func tableRefSQL(t *TableReference) string {
 		sb.WriteString(t.Subquery.SQL())
 		sb.WriteString(")")
 	} else {
-		sb.WriteString(t.Name)
+		sb.WriteString(nameSQL(t.Name))
 	}
 	if t.Alias != "" {
 		sb.WriteString(" ")
-		sb.WriteString(t.Alias)
+		sb.WriteString(safeIdentifier(t.Alias))
 	}
 	return sb.String()
 }
@@ -1465,7 +1490,7 @@ func forSQL(f *ForClause) string {
 	sb.WriteString(f.LockType)
 	if len(f.Tables) > 0 {
 		sb.WriteString(" OF ")
-		sb.WriteString(strings.Join(f.Tables, ", "))
+		sb.WriteString(nameListSQL(f.Tables))
 	}
 	if f.NoWait {
 		sb.WriteString(" NOWAIT")
@@ -1479,10 +1504,10 @@ func forSQL(f *ForClause) string {
 func cteSQL(cte *CommonTableExpr) string {
 	sb := getBuilder()
 	defer putBuilder(sb)
-	sb.WriteString(cte.Name)
+	sb.WriteString(safeIdentifier(cte.Name))
 	if len(cte.Columns) > 0 {
 		sb.WriteString(" (")
-		sb.WriteString(strings.Join(cte.Columns, ", "))
+		sb.WriteString(nameListSQL(cte.Columns))
 		sb.WriteString(")")
 	}
 	sb.WriteString(" AS ")
@@ -1510,7 +1535,7 @@ func onConflictSQL(oc *OnConflict) string {
 	}
 	if oc.Constraint != "" {
 		sb.WriteString(" ON CONSTRAINT ")
-		sb.WriteString(oc.Constraint)
+		sb.WriteString(safeIdentifier(oc.Constraint))
 	}
 	if oc.Action.DoNothing {
 		sb.WriteString(" DO NOTHING")
@@ -1532,7 +1557,7 @@ func onConflictSQL(oc *OnConflict) string {
 func columnDefSQL(c *ColumnDef) string {
 	sb := getBuilder()
 	defer putBuilder(sb)
-	sb.WriteString(c.Name)
+	sb.WriteString(safeIdentifier(c.Name))
 	sb.WriteString(" ")
 	sb.WriteString(c.Type)
 	for _, con := range c.Constraints {
@@ -1569,21 +1594,21 @@ func tableConstraintSQL(tc *TableConstraint) string {
 	defer putBuilder(sb)
 	if tc.Name != "" {
 		sb.WriteString("CONSTRAINT ")
-		sb.WriteString(tc.Name)
+		sb.WriteString(safeIdentifier(tc.Name))
 		sb.WriteString(" ")
 	}
 	switch tc.Type {
 	case "PRIMARY KEY":
 		sb.WriteString("PRIMARY KEY (")
-		sb.WriteString(strings.Join(tc.Columns, ", "))
+		sb.WriteString(nameListSQL(tc.Columns))
 		sb.WriteString(")")
 	case "UNIQUE":
 		sb.WriteString("UNIQUE (")
-		sb.WriteString(strings.Join(tc.Columns, ", "))
+		sb.WriteString(nameListSQL(tc.Columns))
 		sb.WriteString(")")
 	case "FOREIGN KEY":
 		sb.WriteString("FOREIGN KEY (")
-		sb.WriteString(strings.Join(tc.Columns, ", "))
+		sb.WriteString(nameListSQL(tc.Columns))
 		sb.WriteString(") ")
 		if tc.References != nil {
 			sb.WriteString(referenceSQL(tc.References))
@@ -1602,10 +1627,10 @@ func referenceSQL(r *ReferenceDefinition) string {
 	sb := getBuilder()
 	defer putBuilder(sb)
 	sb.WriteString("REFERENCES ")
-	sb.WriteString(r.Table)
+	sb.WriteString(nameSQL(r.Table))
 	if len(r.Columns) > 0 {
 		sb.WriteString(" (")
-		sb.WriteString(strings.Join(r.Columns, ", "))
+		sb.WriteString(nameListSQL(r.Columns))
 		sb.WriteString(")")
 	}
 	if r.OnDelete != "" {
@@ -1628,7 +1653,7 @@ func alterActionSQL(a *AlterTableAction) string {
 		}
 		return s
 	case "DROP COLUMN":
-		return "DROP COLUMN " + a.ColumnName
+		return "DROP COLUMN " + safeIdentifier(a.ColumnName)
 	case "ADD CONSTRAINT":
 		if a.Constraint != nil {
 			return "ADD " + tableConstraintSQL(a.Constraint)
@@ -1644,7 +1669,7 @@ func mergeActionSQL(a *MergeAction) string {
 	case "UPDATE":
 		sets := make([]string, len(a.SetClauses))
 		for i, s := range a.SetClauses {
-			sets[i] = s.Column + " = " + exprSQL(s.Value)
+			sets[i] = nameSQL(s.Column) + " = " + exprSQL(s.Value)
 		}
 		return "UPDATE SET " + strings.Join(sets, ", ")
 	case "INSERT":
@@ -1655,7 +1680,7 @@ func mergeActionSQL(a *MergeAction) string {
 		} else {
 			if len(a.Columns) > 0 {
 				sb.WriteString(" (")
-				sb.WriteString(strings.Join(a.Columns, ", "))
+				sb.WriteString(nameListSQL(a.Columns))
 				sb.WriteString(")")
 			}
 			if len(a.Values) > 0 {
